@@ -2,6 +2,9 @@
 """Writes MANIFEST.json. The list DONE names the properties whose checks exist."""
 import json, subprocess
 DONE = {
+ "C08": ("exploration", "declarative token-classifier monitor + metamorphic option non-interference grouping over all 1536 parser option sets",
+         "A corpus of ~190 tokens (every class and its near misses) is placed in 12 syntactic contexts and read under every one of the 1536 option sets. (a) A classifier written from the option documentation says what each reading must be (or that it must be an error / must not be a number / is unspecified). (b) Independently, option sets that agree on all options the input exercises (an over-approximated relation) are grouped and must give identical results.",
+         "trusted: the classifier's reading of the documentation (Unspecified where silent); the exercise relation is an over-approximation on this corpus", "4/C08"),
  "C02": ("exploration", "reference-model monitor: fold(v,P,Q) vs parse_Q(print_P(v)) over all 576 printer sets x compatible parser sets + independent Emacs Lisp reference reader",
          "fold() encodes the documented dialect folding (nil/t/false/empty-bytes); for every printer option set and the parser option sets that recognise its output (all ~83k pairs in thorough, 6 sampled per printer set in quick) generated values with names plain for the pair must read back as fold(v); the elisp()/elisp() pair is additionally read by an independent reader of the documented Emacs Lisp subset.",
          "trusted: fold(), the compatibility predicate, the Emacs Lisp reference reader", "4/C02"),
